@@ -418,6 +418,7 @@ def add_leg(a, axis=-1, s=-1, t=None, leg=None) -> 'Tensor':
         if len(leg.t) != 1 or leg.D[0] != 1:
             raise YastnError("Only the leg of dimension one can be added to the tensor.")
         if isinstance(leg, LegMeta):  # meta fused leg
+            axis = axis % (a.ndim + 1)  # the constituent legs are inserted one by one at this position
             for ll in leg.legs[::-1]:
                 a = a.add_leg(axis=axis, leg=ll)
             mfs = a.mfs[:axis] + (leg.mf,) + a.mfs[axis + len(leg.legs):]
